@@ -16,7 +16,7 @@ queued are those of this datagram.  (3) Batch life-cycle: in every iteration of 
 collect_requests and both send_responses calls follow it before the next iteration or the exit.
 (4) Send loop: iterates `requests` to exhaustion (only exit = iterator exhausted; a failed send does not leave the loop), exactly
 one send_to per iteration outside any inner loop, destination / nonce / index taken from that iteration's element (C02.5).
-(5) Rejected datagrams cause none (C07.3).  The serving loop is single-threaded per worker, so its CFG covers every interleaving of arrivals.
+(5) Rejected datagrams cause none (C07.3).  The serving loop is single-threaded per worker, so its CFG covers every interleaving of arrivals.(6) "Proving its own inclusion": C02's leaf-definition and response-assembly rules (what is hashed as the leaf of a request; INDX, PATH, nonce and destination from one queued element).
 """
 NOT_DECIDED = "kernel delivery of the datagram"
 TRUSTED = ["Vec::push / slice::iter().enumerate() semantics"]
